@@ -769,7 +769,9 @@ def split_assumptions(out):
                 blocks.append(cur)
             cur = []
         elif cur is not None:
-            m = re.match(r'^([A-Za-z_][A-Za-z0-9_.\']*)\s*:', line)
+            # an axiom is listed as `name : type` or, when the type is long, as
+            # `name` alone on a line followed by an indented `: type`
+            m = re.match(r'^([A-Za-z_][A-Za-z0-9_.\']*)\s*(:.*)?$', line)
             if m:
                 cur.append(m.group(1))
     if cur is not None:
